@@ -47,6 +47,16 @@ class C16(Prop):
             ch = best if i % 3 else sorted(set([best] + rng.sample(range(1, m + 1), rng.randint(0, m - 1))))
             if isinstance(ch, list) and min(swx[j - 1] for j in ch) < swx[best - 1] and i % 2: ch = [best]
             yield dict(entry="distortion", family="helper_many_agents", rule="DIST", V=V, choice=ch)
+        # distortion helper with a chosen alternative nobody values (welfare exactly 0, the profile's welfare being positive): the ratio against the WORST
+        # chosen alternative is then infinite - for an int choice and for an array of choices (duplicates and unsorted arrays included)
+        for i in range(30 if tier == "quick" else 400):
+            n = rng.randint(1, 6); m = rng.randint(2, 6); z = rng.randint(1, m)
+            V = [[(0.0 if j + 1 == z else rng.choice([0.0, rng.random(), rng.randint(1, 9) / 10.0])) for j in range(m)] for _ in range(n)]
+            if sum(map(sum, V)) <= 0: V[0][z % m] = 0.5
+            others = [j for j in range(1, m + 1) if j != z]
+            ch = z if i % 3 == 0 else [z] if i % 3 == 1 and i % 2 else rng.sample(others, rng.randint(1, len(others))) + [z] + rng.sample(others, rng.randint(0, 1))
+            if isinstance(ch, list) and i % 4 == 0: rng.shuffle(ch)
+            yield dict(entry="distortion", family="helper_zero_welfare_choice", rule="DIST", V=V, choice=ch)
         # many agents share one favourite and each has ONE other item worth exactly as much as the favourite (the rest is worth nothing): an allocation that serves
         # the second items is n times better than one that does not; 8 - 11 agents, small integer utilities, lambda 1 .. 3
         for i in range(24 if tier == "quick" else 300):
@@ -175,6 +185,10 @@ class C16(Prop):
         sw = [sum(V[i][j] for i in range(n)) for j in range(m)]
         if case["rule"] == "DIST":
             ch = case["choice"]; chosen = [ch] if isinstance(ch, int) else ch
+            if min(sw[j - 1] for j in chosen) == 0:
+                # the worst chosen alternative has no welfare at all (the optimum is positive): the ratio is infinite
+                if obs["out"] != float("inf"): return ("wrong_distortion", "distortion helper returned %r although the chosen alternative %d has welfare 0 (optimum %s): max/min-chosen welfare is infinite" % (obs["out"], min(chosen, key=lambda j: sw[j - 1]), float(max(sw))))
+                return None
             want = max(sw) / min(sw[j - 1] for j in chosen)
             if abs(Fraction(obs["out"]) - want) > Fraction(1, 10**9) * want: return ("wrong_distortion", "distortion helper returned %r, max/min-chosen welfare is %s" % (obs["out"], float(want)))
             if obs["out"] < 1: return ("distortion_below_one", "distortion %r < 1" % obs["out"])
